@@ -21,12 +21,12 @@ import (
 // returned by deadline + settle".
 
 type c12 struct {
-	w      *W
-	kind   string
-	s      mangos.Socket
-	mn     *MsgNet
-	calls  []*Call
-	bound  time.Duration
+	w     *W
+	kind  string
+	s     mangos.Socket
+	mn    *MsgNet
+	calls []*Call
+	bound time.Duration
 }
 
 // do issues a call that must return within c.bound of simulated time.
